@@ -1,5 +1,5 @@
 """C03 — session and login state machine follows the PKCS#11 rules (DESIGN.md §3 C03)."""
-import re
+import re, itertools
 from engine.rulelib import *
 
 EXPLANATION = (
@@ -323,6 +323,122 @@ def r6_inittoken(ctx, prog):
             r.ok(f['qname'], site, '%d paths' % len(o.outcomes), file=f['file'], line=f['line'])
 
 
+# --------------------------------------------------------------------------------------- R7: scans of the session table are complete
+def _table_env(vals):
+    env = {'size(sessions)': str(len(vals))}
+    for i in range(len(vals)):
+        env['operator[](sessions,%d)' % i] = 'E%d' % i
+    return env
+
+
+def _table_cenv(vals, extra):
+    """vals: per table entry None or (slot number, rw flag)."""
+    c = {'#concrete-loops': 1}
+    c.update(extra)
+    for i, v in enumerate(vals):
+        c['E%d' % i] = 0 if v is None else 1
+        if v is not None:
+            c[re.compile(r'getSlotID(@\d+)?\(getSlot(@\d+)?\(E%d\)\)' % i)] = v[0]
+            c[re.compile(r'isRW(@\d+)?\(E%d\)' % i)] = v[1]
+    return c
+
+
+def r7_table_scans(ctx, prog):
+    """Finite-domain evaluation over every content of a three-entry session table (each entry empty / a session of this slot / of another slot, RO or RW):
+    the scanning functions must compute what their name says for every content, in particular with holes in any position."""
+    from engine.interp import St
+    r = ctx.rule('C03.R7', 'the scans of the session table see every entry: haveSession / haveROSession / last-session test / close-all are correct for every table content', floor=4, engine='E1 finite-domain, concrete small vector')
+    kinds = [None, (7, 0), (7, 1), (5, 1)]
+    tables3 = [list(t) for t in itertools.product(kinds, repeat=3)]
+
+    def run(fname, vals, extra, record):
+        f = prog.fn(fname)
+        o = Outcomes(f, prog, cenv=_table_cenv(vals, extra), record_calls=record)
+        o.LOOP_ROUNDS = 6
+        o.CAP = 256
+        o.go(St(env=_table_env(vals)))
+        return f, o
+
+    def show(vals):
+        return '[' + ', '.join('-' if v is None else ('this slot %s' % ('RW' if v[1] else 'RO') if v[0] == 7 else 'other slot') for v in vals) + ']'
+    # haveSession / haveROSession
+    for fname, spec in (('SessionManager::haveSession', lambda vals: any(v is not None and v[0] == 7 for v in vals)),
+                        ('SessionManager::haveROSession', lambda vals: any(v is not None and v[0] == 7 and not v[1] for v in vals))):
+        bad = None
+        n = 0
+        for vals in tables3:
+            f, o = run(fname, vals, {'slotID': 7}, set())
+            r.paths += len(o.outcomes)
+            n += 1
+            got = {oc['retv'] for oc in o.outcomes}
+            if got != {int(spec(vals))}:
+                bad = (vals, got, o.outcomes[0] if o.outcomes else None)
+                break
+        ctx.analysed(f)
+        if bad:
+            r.violation(fname, 'all table contents', 'for the table %s the function answers %s, expected %s: %s' % (show(bad[0]), sorted(map(str, bad[1])), bool(spec(bad[0])),
+                        'C_InitToken / C_Login(SO) decide on this answer'), file=f['file'], line=f['line'], path=bad[2]['path'] if bad[2] else None)
+        else:
+            r.ok(fname, 'all table contents', '%d tables of three entries' % n, file=f['file'], line=f['line'])
+    # closeSession: logout iff no other session of the same slot
+    fname = 'SessionManager::closeSession'
+    bad = None
+    n = 0
+    for vals in tables3:
+        for k in range(3):
+            if vals[k] is None:
+                continue
+            slot = vals[k][0]
+            f, o = run(fname, vals, {'hSession': k + 1}, {'logout'})
+            r.paths += len(o.outcomes)
+            n += 1
+            want = not any(v is not None and v[0] == slot and i != k for i, v in enumerate(vals))
+            for oc in o.outcomes:
+                did = any(e[0] == 'call' and e[1] == 'logout' for e in oc['events'])
+                cleared = any(e[0] == 'write' and e[1] == 'operator[](sessions,%d)' % k and e[2] in ('NULL', '0') for e in oc['events']) or \
+                    any(e[0] == 'write' and re.fullmatch(r'operator\[\]\(sessions,(sessionID|%d)\)' % k, e[1]) and e[2] in ('NULL', '0') for e in oc['events'])
+                if oc['ret'] in ('CKR_OK', '0') and (did != want or not cleared):
+                    bad = (vals, k, did, want, cleared, oc)
+            if not o.outcomes or not any(oc['ret'] in ('CKR_OK', '0') for oc in o.outcomes):
+                bad = (vals, k, None, want, False, o.outcomes[0] if o.outcomes else None)
+            if bad:
+                break
+        if bad:
+            break
+    ctx.analysed(f)
+    if bad:
+        vals, k, did, want, cleared, oc = bad
+        r.violation(fname, 'all table contents', 'closing entry %d of the table %s: the token is %s although %s%s' % (
+            k, show(vals), 'logged out' if did else 'not logged out', 'no other session of the slot is open' if want else 'another session of the same slot is still open',
+            '' if cleared else '; the entry is not cleared'), file=f['file'], line=f['line'], path=oc['path'] if oc else None)
+    else:
+        r.ok(fname, 'all table contents', '%d (table, closed entry) pairs' % n, file=f['file'], line=f['line'])
+    # closeAllSessions: exactly the entries of the slot are cleared, then logout
+    fname = 'SessionManager::closeAllSessions'
+    bad = None
+    n = 0
+    for vals in tables3:
+        f, o = run(fname, vals, {re.compile(r'getSlotID(@\d+)?\(slot\)'): 7, 'slot': 1, re.compile(r'getToken(@\d+)?\(slot\)'): 1, 'token': 1}, {'logout'})
+        r.paths += len(o.outcomes)
+        n += 1
+        want = {i for i, v in enumerate(vals) if v is not None and v[0] == 7}
+        for oc in o.outcomes:
+            if oc['ret'] not in ('CKR_OK', '0'):
+                continue
+            got = {int(m.group(1)) for e in oc['events'] if e[0] == 'write' and e[2] in ('NULL', '0') for m in [re.fullmatch(r'operator\[\]\(sessions,(\d+)\)', e[1])] if m}
+            did = any(e[0] == 'call' and e[1] == 'logout' for e in oc['events'])
+            if got != want or not did:
+                bad = (vals, got, want, did, oc)
+        if bad:
+            break
+    ctx.analysed(f)
+    if bad:
+        vals, got, want, did, oc = bad
+        r.violation(fname, 'all table contents', 'for the table %s the entries %s are closed, expected %s%s' % (show(vals), sorted(got), sorted(want), '' if did else '; the token is not logged out'), file=f['file'], line=f['line'], path=oc['path'])
+    else:
+        r.ok(fname, 'all table contents', '%d tables of three entries' % n, file=f['file'], line=f['line'])
+
+
 def run(ctx):
     prog = ctx.prog('ossl-file')
     r1_login(ctx, prog)
@@ -331,9 +447,16 @@ def run(ctx):
     r4_state(ctx, prog)
     r5_validate_then_mutate(ctx, prog)
     r6_inittoken(ctx, prog)
+    r7_table_scans(ctx, prog)
 
 
 MUTANTS = [
+    dict(name='closesession-scan-stops-at-hole', rule='C03.R7', file='src/lib/session_mgr/SessionManager.cpp', after='CK_RV SessionManager::closeSession(',
+         old='\t\tif (sessions[i] == NULL) continue;', new='\t\tif (sessions[i] == NULL) break;'),
+    dict(name='havesession-first-live-entry-only', rule='C03.R7', file='src/lib/session_mgr/SessionManager.cpp', after='bool SessionManager::haveSession(',
+         old='\t\tif ((*i)->getSlot()->getSlotID() == slotID)\n\t\t{\n\t\t\treturn true;\n\t\t}', new='\t\treturn ((*i)->getSlot()->getSlotID() == slotID);'),
+    dict(name='haverosession-skips-after-other-slot', rule='C03.R7', file='src/lib/session_mgr/SessionManager.cpp', after='bool SessionManager::haveROSession(',
+         old='\t\tif ((*i)->getSlot()->getSlotID() != slotID) continue;', new='\t\tif ((*i)->getSlot()->getSlotID() != slotID) break;'),
     dict(name='loginso-while-user-logged-in', rule='C03.R1', file='src/lib/slot_mgr/Token.cpp', after='CK_RV Token::loginSO(',
          old='\tif (sdm->isUserLoggedIn()) return CKR_USER_ANOTHER_ALREADY_LOGGED_IN;\n', new=''),
     dict(name='clogin-no-ro-test', rule='C03.R2', file='src/lib/SoftHSM.cpp', after='CK_RV SoftHSM::C_Login(',
